@@ -329,7 +329,8 @@ def r4_validate_before_commit(rep, src):
         blank_ok = bool(loops) and loops[0][1]['accepted'][False].intersect(blank_line).is_empty()
         parts_ok = any('iter_parts()' in t and 'parse_deb822_file(' in t and (('!= 1' in t and not pol) or ('== 1' in t and pol)) for t, pol in lits)
         if not (blank_ok or parts_ok):
-            res['the re-parse is the field and nothing else'] = False
+            res['the re-parse is the field and nothing else'] = None       # not decided on the path literals: decided by interpretation (r4b)
+        if False:
             wb_ = loops[0][1]['accepted'][False].intersect(blank_line).witness() if loops else None
             why['the re-parse is the field and nothing else'] = ('the later line %r is accepted, the parser reads it as the end of the paragraph, and the first paragraph of the re-parse '
                                                                  'is taken without a test that nothing follows it: a value that ends in such lines is stored cut off, without an error' % (wb_,))
@@ -342,6 +343,8 @@ def r4_validate_before_commit(rep, src):
             if ('find_first_error_element' in tt or "[-1].startswith('#')" in tt) and 'ValueError' not in norm(p_.outcome[1]):
                 res['syntax errors are rejected'] = False
     for what, ok in res.items():
+        if ok is None:
+            continue
         if ok:
             rep.ok('C05.R4', f.site, what, 'holds on all %d committing paths' % len(committing))
         else:
@@ -358,6 +361,58 @@ def r4_validate_before_commit(rep, src):
         rep.ok('C05.R4', f.site, 'comment of a replaced field is handed over', 'value.comment_element = original.comment_element before the commit')
     else:
         rep.fail('C05.R4', f.site, 'comment of a replaced field is handed over', 'the comment lines of a replaced field are not moved to the new field', where=f.where)
+
+
+def r4b_reparse_shapes(rep, src):
+    """set_field_from_raw_string interpreted (sa.heap) with the parser replaced by a stub that answers with a file of a given shape: the
+    field is committed only when the re-parsed file is one paragraph with one field and nothing else; a paragraph followed by a
+    separator line (a value that ends in a blank line), two paragraphs, or two fields end in ValueError with nothing committed.  The
+    stub file has the real layout (a LinkedList of parts), so the code may ask for its paragraphs or for all its parts."""
+    from .. import heap as H
+    from . import C10
+    f = src.func(PM + ':Deb822ParagraphElement.set_field_from_raw_string')
+    rep.saw_func(f)
+    shapes = [('the field alone', 'P1', 'commit'), ('the field and a blank line after it', 'P1 W', 'ValueError'), ('two paragraphs', 'P1 W P1', 'ValueError'),
+              ('one paragraph with two fields', 'P2', 'ValueError'), ('nothing but a blank line', 'W', 'ValueError')]
+    for label, shape, want in shapes:
+        log = []
+        heap = C10.mk_heap(src, log)
+        commits = []
+        newkv = heap.alloc('KV', {'field_name': 'A', 'comment_element': None, 'parent_element': None}, name='@new_field')
+        parts = []
+        for i_, tok in enumerate(shape.split()):
+            if tok == 'W':
+                parts.append(heap.alloc('Deb822WhitespaceToken', {'text': ' \n', 'parent_element': None, 'is_whitespace': True, 'is_comment': False}))
+            else:
+                d = heap.new_dict()
+                for k_ in range(int(tok[1:])):
+                    heap.objs[d.name]['entries'].append((H.Key('f%d' % k_, 'F%d' % k_), newkv))
+                parts.append(heap.alloc(C10.NOD, {'parent_element': None, '_kvpair_elements': d}, name='@reparsed_paragraph%d' % i_))
+        lst, _nodes = H.build_list(heap, parts)
+        reparsed = heap.alloc('Deb822FileElement', {'_token_and_elements': lst, 'parent_element': None}, name='@reparsed')
+        target = heap.alloc(C10.NOD, {'parent_element': None, '_kvpair_elements': heap.new_dict()}, name='@target')
+        heap.hooks.update({
+            'parse_deb822_file': lambda it, a, k: reparsed,
+            '.find_first_error_element': lambda it, a, k: None,
+            '.get_kvpair_element': lambda it, a, k: None if a[0].name == '@target' else newkv,
+            '.set_kvpair_element': lambda it, a, k, commits=commits: commits.append(a[2] if len(a) > 2 else None),
+            '_unpack_key': lambda it, a, k: (a[0], None, None),
+            'split_lines_keepends': lambda it, a, k: it.h.new_list([x + '\n' for x in str(a[0]).split('\n')[:-1]]),
+        })
+        what = 'the re-parse gives %s' % label
+        try:
+            H.Interp(heap).call(H.Closure(f.node, {}, target, f.cls), ['A', ' a\n'], {'preserve_original_field_comment': None, 'field_comment': None})
+            out = 'commit' if commits else 'nothing committed, no error'
+        except H.Raised as x:
+            out = '%s' % x.exc
+            out_line = x.lineno
+        if out == want and (want != 'commit' or commits == [newkv]):
+            rep.ok('C05.R4', f.site, what, 'the field is stored' if want == 'commit' else 'ValueError, nothing stored')
+        elif want == 'commit':
+            rep.fail('C05.R4', f.site, what, 'a well-formed new value is not stored (%s, line %s)' % (out, locals().get('out_line')), where=f.where)
+        else:
+            rep.fail('C05.R4', f.site, what, 'the first field of the re-parse is stored although the text is more than that field (%s): a value that ends in blank lines, or that reads '
+                     'as further fields or paragraphs, is stored cut off without an error' % out, where=f.where)
 
 
 def r5_setitem_routing(rep, src):
@@ -597,6 +652,7 @@ def check(src, rep, tier):
     rep.guard('C05.R1', r1b_helper, src)
     rep.guard('C05.R3', r3_keys, src)
     rep.guard('C05.R4', r4_validate_before_commit, src)
+    rep.guard('C05.R4', r4b_reparse_shapes, src)
     rep.guard('C05.R5', r5_setitem_routing, src)
     rep.guard('C05.R6', r6_delitem_routing, src)
     rep.need('C05.R8', 1)
